@@ -138,6 +138,11 @@ def rod_grid_is_planar(kind):
 RIGID = ["cylinder2d", "cylinder3d", "sphere", "plane"]
 
 
+# forcing-point counts per rigid grid beyond the default (default first): odd counts put a plane marker at the
+# body origin and a cylinder marker at mid length
+RIGID_COUNTS = {"cylinder2d": [5, 16, 3], "cylinder3d": [2, 5, 4], "sphere": [5, 9, 4], "plane": [5, 3, 7, 8]}
+
+
 def make_rigid(kind, rot, origin, n_points=None, late_pose=True):
     """Returns (body, forcing_grid). The director matrix of the body is set to ``rot`` applied to the
     construction frame (rows = d1, d2, d3).  With late_pose (default) the body and its forcing grid
